@@ -14,6 +14,8 @@ import (
 	"github.com/ogen-go/ogen/location"
 
 	"verifharness/internal/lp"
+	"time"
+	"github.com/ogen-go/ogen/gen/ir"
 )
 
 // ---- composition cycles: oneOf / anyOf / allOf graphs with inline (unnamed) hops ----
@@ -478,4 +480,83 @@ func c11SharedDoc(schemas map[string]any) []byte {
 			"responses":   map[string]any{"200": map[string]any{"description": "ok"}}}}},
 		"components": map[string]any{"schemas": schemas}})
 	return b
+}
+
+// ir.splitLine against the Lean model DocLines (driver tag docsplit): bounded-exhaustive small texts at small
+// limits, the description shapes at the real limit, random texts. The implementation runs under a watchdog (a
+// loop that does not end is an outcome, not a hang of the check).
+func c11DocSplit(r *lp.Run, rng *lp.Rand) {
+	impl := func(s string, limit int) string {
+		ch := make(chan string, 1)
+		go func() {
+			ch <- lp.Guard(func() string {
+				lines := ir.VerifSplitLine(s, limit)
+				if len(lines) == 0 {
+					return "_"
+				}
+				out := make([]string, len(lines))
+				for i, l := range lines {
+					out[i] = c10KeyHex(l)
+				}
+				return strings.Join(out, "|")
+			})
+		}()
+		select {
+		case o := <-ch:
+			return o
+		case <-time.After(3 * time.Second):
+			return "does-not-terminate"
+		}
+	}
+	one := func(s string, limit int, what string) {
+		out := impl(s, limit)
+		r.Case("docsplit", fmt.Sprintf("%d %s", limit, c10KeyHex(s)), out, "docsplit:"+what, len(s) >= limit)
+		r.PropCheck()
+		if out == "does-not-terminate" || out == "panic" {
+			r.Fail(lp.PropFail{Property: "C11", What: "ir.splitLine does not return", Input: map[string]any{"text": s, "limit": limit}, Observed: out, Expected: "lines"})
+		}
+	}
+	alpha := []string{"a", " ", ".", ",", "é"}
+	var rec func(prefix string, depth int)
+	maxLen := r.N(6, 8)
+	for _, limit := range []int{2, 3, 4, 6} {
+		rec = func(prefix string, depth int) {
+			one(prefix, limit, "exhaustive")
+			if depth == maxLen {
+				return
+			}
+			for _, a := range alpha {
+				rec(prefix+a, depth+1)
+			}
+		}
+		rec("", 0)
+	}
+	r.Exhaustive("splitLine small texts", map[string]any{"alphabet": alpha, "max_symbols": maxLen, "limits": []int{2, 3, 4, 6}})
+	for _, lead := range []string{"", ".", ",", ";", " .", "..", ".,;", "- ", "\t."} {
+		for _, n := range []int{97, 98, 99, 100, 101, 130, 250} {
+			for _, run := range []string{"a", "spec/template/", "é", "ab. "} {
+				long := lead + strings.Repeat(run, n/len(run)+1)
+				for _, t := range []string{long, strings.Repeat("word ", 19) + long, long + " " + long, "  " + long + "  "} {
+					one(t, 100, "shapes")
+				}
+			}
+		}
+	}
+	for i := 0; i < r.N(3000, 40000); i++ {
+		n := rng.Intn(260)
+		var sb strings.Builder
+		for sb.Len() < n {
+			switch rng.Intn(12) {
+			case 0, 1:
+				sb.WriteByte(' ')
+			case 2:
+				sb.WriteString(lp.Pick(rng, []string{".", ",", ";", "\t", "  ", ". "}))
+			case 3:
+				sb.WriteString(lp.Pick(rng, []string{"é", "日本", "😀"}))
+			default:
+				sb.WriteString(strings.Repeat(lp.Pick(rng, []string{"a", "b", "/", "-", "x"}), 1+rng.Intn(40)))
+			}
+		}
+		one(sb.String(), lp.Pick(rng, []int{100, 100, 100, 20, 7, 3, 2}), "random")
+	}
 }
